@@ -29,10 +29,10 @@ class PairType(MichelsonType, ADTMixin, prim='pair', args_len=None):
         return all(item == other.items[i] for i, item in enumerate(self.items))
 
     def __lt__(self, other: 'PairType'):  # type: ignore
-        for i, item in enumerate(self.items):  # noqa: SIM111
-            if item > other.items[i]:
-                return False
-        return True
+        for i, item in enumerate(self.items):
+            if item != other.items[i]:
+                return item < other.items[i]
+        return False
 
     def __hash__(self):
         return hash(self.items)
